@@ -82,6 +82,7 @@ func runC10(c *Ctx) {
 	c.rule("unset-typed-as-field", "every reflect.Zero returned by helper.OnImplements (the unset value of a text-unmarshaler field) has the field's own type: the zero of the pointer-stripped type only where no pointer was stripped, the nil pointer to it only where one was", 2)
 	c.rule("recursion-excludes-textm", "the type a nested Transformer is created for (after stripping the outer pointer / slice / array) was itself tested, in both forms, not to implement encoding.TextUnmarshaler", 1)
 	c.rule("reverse-skips-untranslated", "(sibling agreement) ReverseTranslate calls Unmangle only for state entries whose recorded field passes the predicate under which TranslateType mangled it (go/ast.IsExported of the name)", 1)
+	c.rule("value-pipeline", "(shared with C20) the transforming wrappers translate, call the inner with the translated type and reverse-translate with the transformer built in that very call (a transformer kept from an earlier call belongs to another type)", 2)
 	c.rule("should-recurse-table", "ShouldRecurse is a constant per mangler: false for the flattening mangler (it walks nested structs itself), true for all others", 9)
 
 	w := c.W
@@ -110,6 +111,12 @@ func runC10(c *Ctx) {
 	c10OnImplementsZero(c, "unset-typed-as-field")
 	c10RecursionExcludesTextM(c, "recursion-excludes-textm")
 	c10ReverseSkipsUntranslated(c, "reverse-skips-untranslated")
+	if dec := c.W.fn("sourcewrap", "transformingDecoder.Decode"); dec != nil {
+		c20Pipeline(c, dec, "("+modPath+".Decoder).Decode", "value-pipeline")
+	}
+	if val := c.W.fn("sourcewrap", "transformingSourceNoWatch.Value"); val != nil {
+		c20Pipeline(c, val, "("+modPath+".Source).Value", "value-pipeline")
+	}
 	_ = w
 }
 
